@@ -140,3 +140,14 @@ Definition chol_sample (means : option (list Q)) (M : list (list Q)) (n : nat) (
 (* rng.choice(imax, size=nrand, replace=not unique) returns (no ValueError) *)
 Definition ri_accepts (imax nrand : Z) (unique : bool) : bool :=
   ((0 <=? nrand) && ((nrand =? 0) || (0 <? imax)) && (negb unique || (nrand <=? imax)))%Z.
+
+(* ---------------------------------------------------------------- named pieces (round 6: so that the translator can
+   regenerate them from the source and tie them; the definitions above are unchanged) *)
+
+(* Generator._genrand_accum: urand = rng.uniform(size=n); rand = stat.interplin(xvals, pcum, urand)  (interplin is
+   vectorised over its third argument) *)
+Definition genrand_accum (xvals pcum us : list Q) : result (list Q) := mapM (interplin xvals pcum) us.
+
+(* numpy's rng.choice(imax, size=nrand, replace=replace) returns (does not raise ValueError) *)
+Definition choice_accepts (imax nrand : Z) (replace : bool) : bool :=
+  ((0 <=? nrand) && ((nrand =? 0) || (0 <? imax)) && (replace || (nrand <=? imax)))%Z.
